@@ -613,7 +613,9 @@ class Unit:
             for kw, arg, t in lb:
                 k = int(arg.split()[0])
                 if k > len(loops):
-                    raise CutError("%s: loop %d not found (function has %d loops)" % (path, k, len(loops)))
+                    # the loop this invariant block belongs to is gone from the source: nothing to attach it to; what is left is verified as it is
+                    log.append(('note', 'invariant block for loop %d ignored: the extracted text has %d loop(s)' % (k, len(loops)), 1))
+                    continue
                 inserts.append((loops[k - 1][1], '\n' + t.rstrip() + '\n'))
             for off, t in sorted(inserts, reverse=True):
                 text_body = text_body[:off] + t + text_body[off:]
